@@ -443,6 +443,21 @@ static void run_case(const struct tcase *tc, int want_sample) {
     ref_overlimit_from = -1;
     ref_loose_from = -1;
     ref_visit(tc, 0, 1);
+    /* "Documents that exceed a limit or lack a closing tag are rejected with an error instead of being mis-reported": for
+     * such a document the property fixes the final answer (an error) and forbids wrong reports, but not HOW EARLY the
+     * parser notices - a parser that validates a node before it hands it to the callback, or the whole document up
+     * front, is as right as one that notices when it searches for the closing tag.  doc_invalid = the document itself is
+     * outside the dialect, whatever the callback program does */
+    int doc_invalid = tc->drop_close >= 0;
+    {
+        size_t maxd = tc->max_depth ? tc->max_depth : 20;
+        for (int v = 0; v < tc->n; ++v) {
+            if (tc->name_len[v] > 256 || tc->nattr[v] > 10) doc_invalid = 1;
+            size_t depth = 1;
+            for (int u = tc->parent[v]; u >= 0; u = tc->parent[u]) ++depth;
+            if (depth > maxd) doc_invalid = 1;
+        }
+    }
     /* 3. action sequence in invocation order (independent of the limits) */
     int reached[MAXN];
     memset(reached, 0, sizeof(reached));
@@ -574,6 +589,10 @@ static void run_case(const struct tcase *tc, int want_sample) {
     }
     if (!n_viol_case && rc == AWS_OP_ERR && err == AWS_ERROR_INVALID_XML && ref_overlimit_from >= 0 && L_n >= ref_overlimit_from && L_n <= E_n) {
         V_COUNT("overlong_name_rejected", 1);
+    } else if (!n_viol_case && doc_invalid && rc == AWS_OP_ERR && err == AWS_ERROR_INVALID_XML && L_n <= E_n) {
+        /* rejected with the documented error, every callback delivered before that was a correct report (compared above) */
+        V_COUNT("invalid_document_rejected", 1);
+        if (L_n < E_n) V_COUNT("invalid_document_rejected_before_the_reference_point", 1);
     } else if (!n_viol_case) {
         int last = L_n - 1; /* the element whose processing was under way when the parse ended */
         switch (ref_outcome) {
